@@ -86,22 +86,30 @@ def check_case(ctx, case):
                     return 'colour/font/stroke settings change the geometry'
             elif g != G:
                 return 'switch set %d changes the geometry' % fl
-            ro = ctx.conv(s, entry=4, flags=fl, ow=case['ow'], oh=case['oh'], **st)
-            if not ro.ok:
-                return 'conversion failed: ' + ro.fail_text()
-            so = Scene(ro.out)
-            if (so.W, so.H) != (F(repr(case['ow'])), F(repr(case['oh']))):
-                return 'override size: root is %sx%s, asked %sx%s' % (so.W, so.H, case['ow'], case['oh'])
-            if so.sorted() != G[2]:
-                return 'override size changes the geometry'
-            if (len(so.style), len(so.defs), len(so.backdrop)) != ((fl >> 1) & 1, (fl >> 2) & 1, fl & 1):
-                return 'override size, switch set %d: style/defs/backdrop elements wrong' % fl
-            if fl & 1:
-                bd = so.backdrop[0].attrs
-                if (F(bd['width']), F(bd['height'])) != (so.W, so.H):
-                    return 'override size: backdrop %r is not the overridden size' % bd
-            if fl & 2 and so.style[0].text != sc.style[0].text:
-                return 'override size changes the style sheet'
+            # the overridden size: the case's own and, for every other document, exactly the size the library
+            # computes (a caller handing the size it got from an earlier call back, e.g. on redraw)
+            sizes = [(case['ow'], case['oh'])]
+            if case.get('handback', True):
+                sizes.append((float(sc.W), float(sc.H)))
+            for (ow_, oh_) in sizes:
+                case = dict(case, ow=ow_, oh=oh_)
+                ro = ctx.conv(s, entry=4, flags=fl, ow=case['ow'], oh=case['oh'], **st)
+                if not ro.ok:
+                    return 'conversion failed: ' + ro.fail_text()
+                so = Scene(ro.out)
+                if abs(so.W - F(repr(case['ow']))) > F(1, 100) or abs(so.H - F(repr(case['oh']))) > F(1, 100):
+                    return 'override size: root is %sx%s, asked %sx%s' % (so.W, so.H, case['ow'], case['oh'])
+                if so.sorted() != G[2]:
+                    return 'override size changes the geometry'
+                if (len(so.style), len(so.defs), len(so.backdrop)) != ((fl >> 1) & 1, (fl >> 2) & 1, fl & 1):
+                    return 'override size, switch set %d: style/defs/backdrop elements wrong' % fl
+                if fl & 1:
+                    bd = so.backdrop[0].attrs
+                    if (F(bd['width']), F(bd['height'])) != (so.W, so.H):
+                        return 'override size: backdrop %r is not the overridden size' % bd
+                if fl & 2 and so.style[0].text != sc.style[0].text:
+                    return 'override size changes the style sheet'
+            ctx.tag('override_with_the_computed_size')
         # every look setting varied alone against the call before it: the style sheet must follow each of them
         prev = dict(st)
         ctx.conv(s, entry=3, flags=7, **prev)
